@@ -241,3 +241,9 @@ func Harness_C17_cmp_all() {
 	verifAssert(t_cmp_all(a, b) == want, "t_cmp_all: >= <= > < = <> at and around the boundary")
 	verifCover("end")
 }
+
+func Harness_C17_partial2() {
+	a, b, c := verifInt("a"), verifInt("b"), verifInt("c")
+	verifAssert(t_partial2(a, b, c) == refT3(a, b, c), "t_partial2: a partial application leaving two arguments open passes them in order")
+	verifCover("end")
+}
